@@ -206,9 +206,8 @@ def _huge(case, out):
             violation(out, 'modes-miscounted-on-large-mesh', 'bin_kmu[compiled]',
                       {'mesh': n, 'nthread': T, 'count': cnt.tolist(), 'expected': want.tolist()})
             return
-        if np.abs(np.asarray(res[0])[:, 0] - 1.0).max() > 1e-3:
-            violation(out, 'wrong-mean-value', 'bin_kmu[compiled]', {'mesh': n, 'nthread': T})
-            return
+        # (the mean of the weights is not looked at here: it is accumulated in the weights' float32, which cannot hold
+        # sums beyond 2**24..2**25 exactly on one thread -- an accuracy limit, not a statement of this property)
     bump(out['probes'], 'mesh-with-more-than-2^24-modes-per-bin')
     out['events'].append(['huge', n, want.tolist()])
 
